@@ -18,7 +18,8 @@ CONSTANTS MaxReq,     \* requests per connection
           GenQs,      \* queries the client uses
           GenModes,   \* subset of {"seq", "burst"}
           GenKinds,   \* initial kinds of the records of GenKeys
-          GenFams     \* request families the client uses (model checking)
+          GenFams,    \* request families the client uses ({} in simulation: the weighted mix of Family)
+          GenBackends \* storage backends of the generated scripts
 
 VARIABLES s, n, hist, hdr, stage
 vars == <<s, n, hist, hdr, stage>>
@@ -51,7 +52,8 @@ InitRecs(key) ==
 \* weights for generation: classes of initial records
 KindBag == <<"abs", "abs", "json", "json", "json", "opq", "opq", "hid", "bad">>
 InitRecW(key, backend) ==
-    LET kd == KindBag[RandomElement(1..Len(KindBag))]
+    LET bag == SelectSeq(KindBag, LAMBDA x : x \in GenKinds)
+        kd == bag[RandomElement(1..Len(bag))]
         \* bbolt cannot hold the empty database key; only bbolt can hold an unreadable record
         S == {r \in InitRecs(key) : r.k = kd /\ (kd = "bad" => backend = "bbolt") /\ (key = 4 => backend # "bbolt")}
     IN IF S = {} THEN {[k |-> "abs", c |-> NoC, sub |-> "none"]} ELSE {RandomElement(S)}
@@ -61,7 +63,7 @@ Init == /\ s = InitState("seq", [k \in Keys |-> [k |-> "abs", c |-> NoC]])
         /\ hdr = [mode |-> "seq", backend |-> "hashmap", init |-> <<>>]
 
 Setup == /\ stage = "setup"
-         /\ \E mode \in Pick(GenModes) : \E be \in Pick(IF Emit THEN {"hashmap", "bbolt"} ELSE {"hashmap"}) :
+         /\ \E mode \in Pick(GenModes) : \E be \in Pick(IF Emit THEN GenBackends ELSE {"hashmap"}) :
             \E r1 \in (IF Emit THEN InitRecW(1, be) ELSE InitRecs(1)) :
             \E r2 \in (IF Emit THEN InitRecW(2, be) ELSE InitRecs(2)) :
             \E r3 \in (IF Emit THEN InitRecW(3, be) ELSE InitRecs(3)) :
@@ -113,7 +115,7 @@ Sensible(r) == r.cmd = "iw" => (r.pf = "hid" <=> s.st[r.key].k = "hid")
 Ready == Emit \/ ~IsSeq(s) \/ \A i \in GenIds : s.op[i].ph # "run"
 
 ClientReq == /\ stage = "run" /\ n < MaxReq /\ Ready
-             /\ \E f \in (IF Emit THEN PickW(Family) ELSE GenFams) : \E r \in ReqsOf(f) :
+             /\ \E f \in (IF Emit /\ GenFams = {} THEN PickW(Family) ELSE Pick(GenFams)) : \E r \in ReqsOf(f) :
                    /\ Sensible(r)
                    /\ s' = IF r.cmd = "iw" THEN Req(Req(s, r), [r EXCEPT !.cmd = "iwok"]) ELSE Req(s, r)
                    /\ hist' = IF Emit THEN Append(hist, r) ELSE hist
@@ -129,8 +131,11 @@ Finish == /\ stage = "run" /\ n = MaxReq /\ Emit
 Universe ==
     {[id |-> i, typ |-> t, key |-> 0, c |-> NoC, meta |-> FALSE] : i \in GenIds, t \in {"error", "done", "success", "warning"}}
     \cup {[id |-> i, typ |-> "del", key |-> k, c |-> NoC, meta |-> FALSE] : i \in GenIds, k \in GenKeys}
-    \cup {[id |-> i, typ |-> t, key |-> k, c |-> c, meta |-> b] :
-            i \in GenIds, t \in {"ok", "upd", "new"}, k \in GenKeys, c \in UniC, b \in BOOLEAN}
+    \cup {[id |-> i, typ |-> t, key |-> k, c |-> c, meta |-> TRUE] :
+            i \in GenIds, t \in {"ok", "upd", "new"}, k \in GenKeys, c \in UniC}
+    \* without the metadata section: one content is enough (the section is judged independently of the content)
+    \cup {[id |-> i, typ |-> t, key |-> k, c |-> <<1, 0, 0>>, meta |-> FALSE] :
+            i \in GenIds, t \in {"ok", "upd", "new"}, k \in GenKeys}
 
 ServerRep == /\ stage = "run" /\ ~Emit
              /\ \E m \in Universe : \E t \in Rep(s, m) : s' = t
